@@ -1,6 +1,6 @@
 CONSTANTS
   MaxMsgs = 2
-  Profs = 5
+  Profs = 6
 INIT Init
 NEXT Next
 INVARIANTS C11_FailsExactlyOnCustom C11_OtherwiseIntact C11_NoPartialResponse
